@@ -26,7 +26,8 @@ MODULE = "IwModel.Props.C15"
 THEOREMS = ["IwModel.C15.parsed_wf", "IwModel.C15.klidx_inv", "IwModel.C15.klidx_inv_run", "IwModel.C15.klidx_inv_patch",
             "IwModel.C15.klidx_check", "IwModel.C15.apply_rfc_partial", "IwModel.C15.apply_rfc_structural_partial",
             "IwModel.C15.test_equality", "IwModel.C15.parsed_uk", "IwModel.C15.idx_agree_small",
-            "IwModel.C15.binary_rfc_partial", "IwModel.C15.apply_rfc_err_partial", "IwModel.C15.binary_err_partial", "IwModel.C15.binn_atomic", "IwModel.C15.binary_error_reported",
+            "IwModel.C15.binary_rfc_partial", "IwModel.C15.apply_rfc_err_partial", "IwModel.C15.binary_err_partial", "IwModel.C15.pointer_text_roundtrip", "IwModel.C15.patch_document_decoded", "IwModel.C15.jbl_patch_rfc_partial",
+            "IwModel.C15.binn_atomic", "IwModel.C15.binary_error_reported",
             "IwModel.C15.missing_target_reported", "IwModel.C15.slash_root_witness", "IwModel.C15.dash_last_witness"]
 
 UNSPEC = {"addcreate-unspecified", "swap-overlap", "swap-unspecified", "increment-overflow", "remove-root", "malformed-op", "unknown-op"}
